@@ -5,6 +5,7 @@ import (
 	"go/types"
 	"sort"
 	"strings"
+	"time"
 
 	"golang.org/x/tools/go/ssa"
 )
@@ -64,6 +65,8 @@ func runInventory(w *World, what string) {
 				}
 			}
 		}
+	case "c06":
+		inventoryC06(w)
 	default:
 		fmt.Println("unknown inventory", what)
 	}
@@ -91,4 +94,36 @@ func fieldOwner(w *World, f *types.Var) string {
 		}
 	}
 	return ""
+}
+
+func inventoryC06(w *World) {
+	roots := c06Roots(w)
+	t0 := time.Now()
+	reach := w.ReachableFrom(roots, nil)
+	fmt.Println("reachable", len(reach), time.Since(t0))
+	var names []string
+	for fn := range reach {
+		for _, b := range fn.Blocks {
+			for _, in := range b.Instrs {
+				if r, ok := in.(*ssa.Range); ok {
+					if _, ok := r.X.Type().Underlying().(*types.Map); ok {
+						names = append(names, fmt.Sprintf("%s\t%s", fname(fn), w.Pos(r.Pos())))
+					}
+				}
+				if ci, ok := in.(ssa.CallInstruction); ok {
+					if o := calleeObj(ci); o != nil && o.Pkg() != nil {
+						k := o.Pkg().Path() + "." + o.Name()
+						switch {
+						case k == "time.Now", o.Pkg().Path() == "math/rand", k == "os.Getenv", o.Name() == "CurrentHeader", o.Name() == "CurrentBlock":
+							names = append(names, fmt.Sprintf("SOURCE %s\t%s\t%s", k, fname(fn), w.Pos(ci.Pos())))
+						}
+					}
+				}
+			}
+		}
+	}
+	sort.Strings(names)
+	for _, n := range names {
+		fmt.Println(n)
+	}
 }
